@@ -13,7 +13,7 @@ from common import Case, Failure, clist, parse_clist, flist, parse_flist, call, 
 
 PID = 'C10'
 LEAN_TARGETS = ['Nitime.Props.C10']
-RULE = ('cases from one PRNG state: signals real / complex / strongly coloured (AR-filtered noise, pole radius to 0.97), '
+RULE = ('every routine is also run in call sequences on the same argument objects (>=3 evaluations in mixed order, results scribbled over, arrays refilled in place; C12: several live analyzers read in interleaved order); cases from one PRNG state: signals real / complex / strongly coloured (AR-filtered noise, pole radius to 0.97), '
         'N in 16..256 (quick) or ..4096 (thorough), orders 1..min(16,N/4); estimators LD and YW with computed and supplied '
         '(biased, unbiased, exact-AR) autocorrelation; AR_psd for sides x parity x real/complex stable coefficient sets; '
         'ar_generator with supplied noise and dropped transients (incl. fewer samples than coefficients); amplitude scales 1e-12..1e6; grids coarser than the order; distinct = distinct protocol line; '
@@ -115,9 +115,11 @@ def run_impl(m):
         data = np.array(parse_clist(m['data']))
         if not m['cplx']:
             data = data.real.copy()
+        # the observed value is the SECOND of two calls on the same argument objects (a pure function
+        # gives the same thing; state left behind by the first call shows up in the correspondence)
         if op.endswith('x'):
-            return call(lambda: canon_est(fn(data, m['order'])))
-        return call(lambda: canon_est(fn(None, m['order'], rxx=data)))
+            return call(lambda: (fn(data, m['order']), canon_est(fn(data, m['order'])))[1])
+        return call(lambda: (fn(None, m['order'], rxx=data), canon_est(fn(None, m['order'], rxx=data)))[1])
     if op == 'autocorr':
         data = np.array(parse_clist(m['data']))
         if not m['cplx']:
@@ -202,7 +204,7 @@ def r_of(m):
     return data[:m['order'] + 1]
 
 
-def judge(m, impl, clause):
+def judge_value(m, impl, clause):
     """Failure or None.  `impl` is the canonical implementation result for meta `m`."""
     ar, ut = mods()
     op = m['op']
@@ -294,6 +296,59 @@ def judge(m, impl, clause):
             return fail('recursion', 'u[n] - sum a_k u[n-k] - sqrt(sigma) v[n] = %.3g (scale %.3g)' % (worst, sc))
         return None
     return None
+
+
+def sequence_judge(m, clause):
+    """the routines behave like pure functions of their arguments: the same argument OBJECTS are used
+    for every call of a schedule (>= 3 evaluations per routine, both estimators interleaved), results
+    must be bitwise identical, arguments bit-for-bit unchanged, returned arrays must not alias
+    internal state, and a refilled array must give what a fresh copy gives"""
+    import ar_seq
+    ar, ut = mods()
+    op = m['op']
+
+    def fail(sym):
+        return Failure('%s/sequence/%s' % (clause, sym), '%s: call sequence on the same argument objects: %s [op %s]' % (clause, sym, op),
+                       {'meta': m, 'clause': clause})
+    cx = lambda k: (np.array(parse_clist(m[k])) if m['cplx'] else np.array(parse_clist(m[k])).real.copy())
+    if op in ('ldx', 'ywx', 'ld', 'yw'):
+        data = cx('data')
+        p = m['order']
+        if op.endswith('x'):
+            rt = {'LD': lambda: ar.AR_est_LD(data, p), 'YW': lambda: ar.AR_est_YW(data, p)}
+        else:
+            rt = {'LD': lambda: ar.AR_est_LD(None, p, rxx=data), 'YW': lambda: ar.AR_est_YW(None, p, rxx=data)}
+        first = 'LD' if op.startswith('ld') else 'YW'
+        other = 'YW' if first == 'LD' else 'LD'
+        syms = ar_seq.run_schedule(rt, [first, other, first, other, other, first], [data])
+        if not syms:
+            data2 = data[::-1].copy() * 0.5 + data.mean()
+            fn = (lambda arr, o: (ar.AR_est_LD if first == 'LD' else ar.AR_est_YW)(arr, o)) if op.endswith('x') else \
+                 (lambda arr, o: (ar.AR_est_LD if first == 'LD' else ar.AR_est_YW)(None, o, rxx=arr))
+            if op.endswith('x') or np.linalg.cond(toeplitz_h(data2, p)) < COND_MAX:
+                syms = ar_seq.refill_check(fn, data, data2, [p, max(1, p - 1)])
+    elif op == 'autocorr':
+        data = cx('data')
+        syms = ar_seq.run_schedule({'autocorr': lambda: ut.autocorr(data)}, ['autocorr'] * 3, [data])
+        if not syms:
+            syms = ar_seq.refill_check(lambda arr, _: ut.autocorr(arr), data, data[::-1].copy() + 1.0, [0])
+    elif op == 'psd':
+        ak = cx('ak')
+        sides = 'onesided' if m['one'] else 'twosided'
+        syms = ar_seq.run_schedule({'psd': lambda: ar.AR_psd(ak, m['sigma'], n_freqs=m['nf'], sides=sides)}, ['psd'] * 3, [ak])
+        if not syms:
+            syms = ar_seq.refill_check(lambda arr, nf: ar.AR_psd(arr, m['sigma'], n_freqs=nf, sides=sides), ak, ak * 0.5, [m['nf'], m['nf'] + 1])
+    elif op == 'gen':
+        co, v = cx('coefs'), cx('v')
+        rt = {'gen': lambda: ut.ar_generator(N=len(v) - m['drop'], sigma=m['sigma'], coefs=co, drop_transients=m['drop'], v=v)}
+        syms = ar_seq.run_schedule(rt, ['gen'] * 3, [co, v])
+    else:
+        syms = []
+    return fail(syms[0]) if syms else None
+
+
+def judge(m, impl, clause):
+    return judge_value(m, impl, clause) or sequence_judge(m, clause)
 
 
 # ------------------------------------------------------------------ generators
